@@ -171,7 +171,7 @@ Proof.
   cbn [eval]. intros H.
   apply bind_ok in H. destruct H as (va & s1 & t1 & t2 & Ha & H & ->).
   apply bind_ok in H. destruct H as (vb & s2 & t2' & t3 & Hb & H & ->).
-  destruct va as [x| | |]; try discriminate. destruct vb as [y| | |]; try discriminate.
+  destruct va as [x| | | |]; try discriminate. destruct vb as [y| | | |]; try discriminate.
   destruct (arith op bits sg x y) as [z|] eqn:Ez; try discriminate.
   apply ret_ok in H. destruct H as (-> & -> & ->).
   exists x, y, s1, t1, t2'. repeat split; auto. { rewrite app_nil_r; auto. }
@@ -200,11 +200,12 @@ Proof.
   - destruct t0; try discriminate. destruct va; try discriminate. destruct vb; try discriminate.
     destruct (arith op bits signed z z0); try discriminate.
     apply ret_ok in H; destruct H as (-> & -> & ->). rewrite app_nil_r. auto.
-  - destruct va as [x|x| |]; destruct vb as [y|y| |]; try discriminate.
+  - destruct va as [x|x| | |x]; destruct vb as [y|y| | |y]; try discriminate.
     + apply ret_ok in H; destruct H as (-> & -> & ->). rewrite app_nil_r. auto.
     + destruct op; try discriminate; apply ret_ok in H; destruct H as (-> & -> & ->); rewrite app_nil_r; auto.
-  - destruct va as [x| |l|d m]; try discriminate.
-    + destruct vb as [y| | |]; try discriminate.
+    + destruct op; try discriminate; apply ret_ok in H; destruct H as (-> & -> & ->); rewrite app_nil_r; auto.
+  - destruct va as [x| |l|d m|]; try discriminate.
+    + destruct vb as [y| | | |]; try discriminate.
       destruct ((0 <=? y) && (y <? Z.of_nat (length l))); try discriminate.
       destruct (nth_error l (Z.to_nat y)); try discriminate.
       apply ret_ok in H; destruct H as (-> & -> & ->). rewrite app_nil_r. auto.
@@ -224,7 +225,7 @@ Lemma and_short_circuit f a b s v s' t :
     else v = VBool false /\ s' = s1 /\ t = t1.
 Proof.
   cbn [eval]. intros H. apply bind_ok in H. destruct H as (va & s1 & t1 & t2 & Ha & H & ->).
-  destruct va as [|[|]| |]; try discriminate.
+  destruct va as [|[|]| | |]; try discriminate.
   - exists true, s1, t1. split; auto. exists t2; auto.
   - exists false, s1, t1. split; auto. apply ret_ok in H. destruct H as (-> & -> & ->).
     rewrite app_nil_r. auto.
@@ -237,7 +238,7 @@ Lemma or_short_circuit f a b s v s' t :
     else exists t2, eval P ce f b s1 = Ok v s' t2 /\ t = t1 ++ t2.
 Proof.
   cbn [eval]. intros H. apply bind_ok in H. destruct H as (va & s1 & t1 & t2 & Ha & H & ->).
-  destruct va as [|[|]| |]; try discriminate.
+  destruct va as [|[|]| | |]; try discriminate.
   - exists true, s1, t1. split; auto. apply ret_ok in H. destruct H as (-> & -> & ->).
     rewrite app_nil_r. auto.
   - exists false, s1, t1. split; auto. exists t2; auto.
@@ -249,7 +250,7 @@ Lemma ifexp_one_branch f c a b s v s' t :
     eval P ce f (if vc then a else b) s1 = Ok v s' t2 /\ t = t1 ++ t2.
 Proof.
   cbn [eval]. intros H. apply bind_ok in H. destruct H as (vc & s1 & t1 & t2 & Hc & H & ->).
-  destruct vc as [|[|]| |]; try discriminate.
+  destruct vc as [|[|]| | |]; try discriminate.
   - exists true, s1, t1, t2. auto.
   - exists false, s1, t1, t2. auto.
 Qed.
@@ -335,7 +336,7 @@ Lemma forin_iterable_once f x e body s q s' t :
     t = t1 ++ t2.
 Proof.
   cbn [exec]. intros H. apply bind_ok in H. destruct H as (va & s1 & t1 & t2 & He & H & ->).
-  destruct va as [| |l|]; try discriminate. exists l, s1, t1, t2. auto.
+  destruct va as [| |l| |]; try discriminate. exists l, s1, t1, t2. auto.
 Qed.
 
 Lemma fordyn_bound_once f x e bound body s q s' t :
@@ -345,7 +346,7 @@ Lemma fordyn_bound_once f x e bound body s q s' t :
     t = t1 ++ t2.
 Proof.
   cbn [exec]. intros H. apply bind_ok in H. destruct H as (va & s1 & t1 & t2 & He & H & ->).
-  destruct va as [n| | |]; try discriminate.
+  destruct va as [n| | | |]; try discriminate.
   destruct ((0 <=? n) && (n <=? bound)) eqn:E; try discriminate.
   exists n, s1, t1, t2. repeat split; auto; lia.
 Qed.
@@ -509,7 +510,7 @@ Lemma get_set_same : forall p x v v', set_path p x v = Some v' -> get_path p v' 
 Proof.
   induction p as [|i r IH]; intros x v v' H; cbn in *.
   - inversion H; auto.
-  - destruct v as [| |l|d m]; try discriminate.
+  - destruct v as [| |l|d m|]; try discriminate.
     + destruct (zidx l i) as [w|] eqn:E; try discriminate.
       destruct (set_path r x w) as [w'|] eqn:E2; try discriminate.
       inversion H; subst. rewrite (zidx_upd_same _ _ _ _ E). eapply IH; eauto.
@@ -522,7 +523,7 @@ Lemma get_set_other : forall p q x v v',
 Proof.
   induction p as [|i r IH]; intros q x v v' H I; cbn in *; [discriminate|].
   destruct q as [|j q']; [discriminate|].
-  destruct v as [| |l|d m]; try discriminate.
+  destruct v as [| |l|d m|]; try discriminate.
   - destruct (zidx l i) as [w|] eqn:E; try discriminate.
     destruct (set_path r x w) as [w'|] eqn:E2; try discriminate.
     inversion H; subst. cbn.
@@ -541,7 +542,7 @@ Lemma set_path_defined_iff_get : forall p x v, (exists v', set_path p x v = Some
 Proof.
   induction p as [|i r IH]; intros x v; cbn.
   - split; eauto.
-  - destruct v as [| |l|d m]; try (split; intros [? ?]; discriminate).
+  - destruct v as [| |l|d m|]; try (split; intros [? ?]; discriminate).
     + destruct (zidx l i) as [w|]; try (split; intros [? ?]; discriminate).
       specialize (IH x w). split.
       * intros [v' H]. destruct (set_path r x w); try discriminate. apply IH. eauto.
